@@ -90,7 +90,8 @@ def gen_ticket(rng):
 def build_cases(ctx):
     rng = ctx.rng
     cases = [fd.setup_case()]
-    where = [("single", 0)] * 3 + [("tri", 0), ("tri", 1), ("tri", 2)] * 2 + [("duo", 0), ("lonely", 0), ("bad", 0), ("failpeer", 0)]
+    where = [("single", 0)] * 3 + [("tri", 0), ("tri", 1), ("tri", 2)] * 2 + [("duo", 0), ("lonely", 0), ("bad", 0), ("failpeer", 0),
+                                                                               ("unk1", 0), ("unk3", 0)]
     for _ in range(ctx.n(30, 500)):
         cl, node = rng.choice(where)
         sql, fam = fd.gen_statement(rng)
@@ -99,6 +100,15 @@ def build_cases(ctx):
     for cl in ("single", "tri"):
         for lo in (10000, 9999, 5904, 5903, 0):
             cases.append(stmt(rng, cl, 0, "SELECT id, s FROM big WHERE id >= %d" % lo, "sizes"))
+    # results that reach the Flight door as ONE batch of more than 8192 rows (sort / aggregation output): more than two
+    # 4096-row messages out of a single batch
+    for cl in ("single", "tri"):
+        for sql in ("SELECT id, s FROM huge ORDER BY id", "SELECT id, g FROM huge WHERE id < 8193 ORDER BY id",
+                    "SELECT id, s FROM huge WHERE id < 12289 ORDER BY id DESC", "SELECT id, COUNT(*) AS c FROM huge GROUP BY id"):
+            cases.append(stmt(rng, cl, 0, sql, "single-batch", modes=[None, rng.choice(fd.OFF_WORDS + ["off"])]))
+    for _ in range(ctx.n(4, 60)):
+        cases.append(stmt(rng, rng.choice(["single", "tri", "duo", "lonely"]), 0, fd.gen_single_batch(rng), "single-batch",
+                          modes=[rng.choice([None, "auto"]), rng.choice(fd.OFF_WORDS), rng.choice(fd.FORCE_WORDS)]))
     for sql in ESCAPED_SQL:
         cases.append(stmt(rng, rng.choice(["single", "tri"]), 0, sql, "escapes"))
     # not-ready nodes and peers that fail their fragment
@@ -318,10 +328,18 @@ def door_python_checks(u):
             return False, "DoGet schema differs from the HTTP Arrow schema"
         if get.get("schema") != info.get("schema") or (f.get("get_schema") or {}).get("schema") != info.get("schema"):
             return False, "GetFlightInfo / GetSchema schema differs from the streamed schema"
-        if d.get("bag", {}).get("hash") != get["bag"]["hash"] or d.get("bag", {}).get("n") != get["bag"]["n"]:
-            return False, "rows differ between the doors"
+        counts = ("DoGet delivered %d rows in messages %s (its trailer says %s); POST /sql?%s delivered %s rows in batches %s (x-qe-rows %s); "
+                  "the engine run in-process returns %s rows" % (get["bag"]["n"], get.get("msg_rows"), tr.get("rows"), h.get("qs"),
+                                                               d.get("bag", {}).get("n"), d.get("batch_rows"), hd.get("x-qe-rows"),
+                                                               local.get("row_count") if local.get("ok") else "an error"))
+        if d.get("bag", {}).get("n") != get["bag"]["n"]:
+            return False, "row COUNT differs between the doors: " + counts
+        if tr.get("rows") != get["bag"]["n"]:
+            return False, "the metadata trailer does not match the rows streamed: " + counts
+        if d.get("bag", {}).get("hash") != get["bag"]["hash"]:
+            return False, "same number of rows but different rows between the doors: " + counts
         if local.get("ok") and (get["bag"]["hash"] != local["bag"]["hash"] or get.get("schema") != local["schema"]):
-            return False, "rows/schema differ from the engine's own answer"
+            return False, "rows/schema differ from the engine's own answer: " + counts
         if (tr.get("distributed") is True) != (hd.get("x-qe-distributed") == "true"):
             return False, "distribution decision differs"
         if fd.clean_header(tr.get("skipped_reason") or "") != (hd.get("x-qe-distributed-skipped") or "").strip():
@@ -507,7 +525,7 @@ def run(ctx):
     doors = [u for u in units if u["kind"] == "door"]
     dist = {"door_comparisons": len(doors), "tickets": sum(1 for u in units if u["kind"] == "ticket"),
             "commands": sum(1 for u in units if u["kind"] == "cmd"), "flight_answers": 0, "flight_errors": 0, "distributed": 0, "local_with_reason": 0,
-            "rows_over_4096": 0, "resliced_streams": 0, "empty_results": 0, "tickets_accepted": 0, "tickets_refused": {},
+            "rows_over_4096": 0, "resliced_streams": 0, "single_batches_over_8192_rows": 0, "largest_single_batch": 0, "empty_results": 0, "tickets_accepted": 0, "tickets_refused": {},
             "clusters": {}, "unstable_membership_skipped": 0, "known_class_units": 0, "codes": {}}
     seen = set()
     for u in doors:
@@ -524,6 +542,8 @@ def run(ctx):
             dist["empty_results"] += 1 if g["bag"]["n"] == 0 else 0
             hb = ((u["h"] or {}).get("decoded") or {}).get("batch_rows") or []
             dist["resliced_streams"] += 1 if any(b > 4096 for b in hb) else 0
+            dist["single_batches_over_8192_rows"] += 1 if any(b > 8192 for b in hb) else 0
+            dist["largest_single_batch"] = max([dist["largest_single_batch"]] + hb)
         else:
             dist["flight_errors"] += 1
             code = g.get("code") or (u["f"].get("info") or {}).get("code")
@@ -553,7 +573,8 @@ def run(ctx):
                     "accepted": u["out"].get("ok", False)})
     slim = [{"i": i, "kind": u["kind"], "case": u["case"] if u["kind"] != "ticket" or "bytes" not in u["case"]["ticket"] or len(u["case"]["ticket"]["bytes"]) < 400
              else dict(u["case"], ticket="(long)"), "mode": mode_word(u["f"]) if u["kind"] == "door" else None, "env": u.get("env"),
-             "why": why[i]} for i, u in enumerate(units)]
+             "statement": (u["case"].get("sql") if isinstance(u["case"].get("sql"), str) else None) if u["kind"] == "door" else None,
+             "verdict": why[i]} for i, u in enumerate(units)]
 
     def impl_of(u):
         if u["kind"] == "door":
@@ -570,7 +591,8 @@ def run(ctx):
         ctx.proof_broken_violation(f"{len(units)} door comparisons / tickets / commands against real nodes, none violates the executable spec")
     return ctx.finish(
         rule="REAL nodes spawned once per run (single, 3-node, 2-node, dead-peer, failed-load, still-loading, peer with another copy of `big`); "
-             "seeded statements (rows, >4096 rows incl. 4096/4097/10000, empty, mergeable and unmergeable aggregates, no base table, errors, "
+             "seeded statements (rows, >4096 rows incl. 4096/4097/10000, results that arrive as ONE batch of 8192..20000 rows (ORDER BY / GROUP BY "
+             "output over a 20000-row table: more than two 4096-row messages per batch), empty, mergeable and unmergeable aggregates, no base table, errors, "
              "statements that need JSON escaping, statements around the 1 MiB caps) x modes (raw command, auto, force and local spellings incl. "
              "`off`) through POST /sql?format=arrow AND GetFlightInfo+DoGet+GetSchema; tampered tickets (truncation, version, garbage, duplicate "
              "keys, positional form, type confusion, extra/missing fields, white space, byte flips, trailing bytes, sizes around the cap); "
@@ -591,6 +613,7 @@ def replay(ctx, obj):
     outs, units, eq, ok, why = evaluate(ctx, [fd.setup_case([case["cluster"]]), case])
     bad = 0
     for u, e, k, w in zip(units, eq, ok, why):
-        print(u["kind"], "mode:", mode_word(u["f"]) if u["kind"] == "door" else "-", "impl_equals_model:", e, "spec_ok:", k, w)
+        print(u["kind"], "statement:", u["case"].get("sql") if u["kind"] == "door" else "-", "mode:", mode_word(u["f"]) if u["kind"] == "door" else "-",
+              "impl_equals_model:", e, "spec_ok:", k, w)
         bad += 0 if (e and k) else 1
     return 1 if bad else 0
